@@ -45,6 +45,61 @@ PANICKING_API = {
     "char::from_digit": "radix",
     "num::<impl u8>::from_str_radix": "radix",
     "util::MsgBuffer::set_length": "msgbuf",
+    # further std / third-party APIs with a documented panic condition
+    "slice::<impl [T]>::swap_with_slice": "slice-len",
+    "slice::<impl [T]>::chunks_mut": "nonzero",
+    "slice::<impl [T]>::chunks_exact_mut": "nonzero",
+    "slice::<impl [T]>::rchunks": "nonzero",
+    "slice::<impl [T]>::rchunks_mut": "nonzero",
+    "slice::<impl [T]>::select_nth_unstable": "index",
+    "slice::<impl [T]>::split_at_unchecked": "split",
+    "slice::<impl [T]>::as_chunks": "nonzero",
+    "iter::Iterator::step_by": "nonzero",
+    "vec::Vec::extend_from_within": "slice-range",
+    "vec::Vec::splice": "slice-range",
+    "vec::Vec::split_at_spare_mut": None,
+    "collections::VecDeque::insert": "index",
+    "collections::VecDeque::swap": "index",
+    "collections::VecDeque::range": "slice-range",
+    "collections::VecDeque::drain": "slice-range",
+    "string::String::truncate": "index",
+    "string::String::drain": "slice-range",
+    "string::String::replace_range": "slice-range",
+    "string::String::insert_str": "index",
+    "str::<impl str>::split_at_mut": "split",
+    "smallvec::SmallVec::from_buf_and_len": "slice-len",
+    "smallvec::SmallVec::insert_many": "index",
+    "smallvec::SmallVec::insert_from_slice": "index",
+    "smallvec::SmallVec::grow": "slice-len",
+    "byteorder::ReadBytesExt::read_uint": "nbytes",
+    "byteorder::ReadBytesExt::read_int": "nbytes",
+    "byteorder::ReadBytesExt::read_uint128": "nbytes",
+    "byteorder::ReadBytesExt::read_int128": "nbytes",
+    "byteorder::WriteBytesExt::write_uint": "nbytes",
+    "byteorder::WriteBytesExt::write_int": "nbytes",
+    "byteorder::ByteOrder::read_u16": "slice-len",
+    "byteorder::ByteOrder::read_u32": "slice-len",
+    "byteorder::ByteOrder::read_u64": "slice-len",
+    "byteorder::ByteOrder::read_u128": "slice-len",
+    "byteorder::ByteOrder::read_uint": "slice-len",
+    "byteorder::ByteOrder::write_u16": "slice-len",
+    "byteorder::ByteOrder::write_u32": "slice-len",
+    "byteorder::ByteOrder::write_u64": "slice-len",
+    "byteorder::ByteOrder::write_u128": "slice-len",
+    "byteorder::ByteOrder::write_uint": "slice-len",
+    "time::Duration::new": "overflow",
+    "time::Duration::from_secs_f32": "float-range",
+    "num::<impl u32>::ilog2": "nonzero",
+    "num::<impl u64>::ilog2": "nonzero",
+    "num::<impl usize>::ilog2": "nonzero",
+    "num::<impl u32>::ilog10": "nonzero",
+    "num::<impl u64>::ilog10": "nonzero",
+    "num::<impl usize>::ilog10": "nonzero",
+    "num::<impl u32>::from_str_radix": "radix",
+    "num::<impl u64>::from_str_radix": "radix",
+    "num::<impl usize>::from_str_radix": "radix",
+    "char::methods::<impl char>::to_digit": "radix",
+    "char::methods::<impl char>::is_digit": "radix",
     "process::exit": "exit",
     "process::abort": "exit",
     "thread::spawn": "spawn",
